@@ -143,6 +143,8 @@ theorem exec_eq_back_to_back_general (q : Quirks) (s twin : Server) (cid : Nat) 
     (hin : (s.conns cid).inTx = true) (hw : r.watchOk = true) (ha : (s.conns cid).aborted = false)
     (hQ : ∀ c ∈ (s.conns cid).queue, queueable q c = true ∧ isBlockingName (nameOf c) = false)
     (hsel : q.selectInExecIgnored = false ∨ ∀ c ∈ (s.conns cid).queue, nameOf c ≠ "SELECT")
+    (hcn : q.connCommandsUnderConnZero = false ∨ ∀ c ∈ (s.conns cid).queue, nameOf c ∉ connectionNames)
+    (hu : q.controlArityUnchecked = false ∨ ∀ c ∈ (s.conns cid).queue, nameOf c ≠ "UNWATCH")
     (hts : twin.store = s.store) (hte : twin.ext = s.ext) (htc : twin.conns cid = { db := (s.conns cid).db }) :
     let direct := framesOf cid r.now (s.conns cid).queue
     (exec q s cid r).1.store = (run q twin direct).store ∧
@@ -160,15 +162,17 @@ theorem exec_eq_back_to_back_general (q : Quirks) (s twin : Server) (cid : Nat) 
   simp only [] at hd
   have hst : (⟨twin.store, (twin.conns cid).db, twin.ext⟩ : ExecSt) = ⟨s.store, (s.conns cid).db, s.ext⟩ := by
     rw [hts, hte, htc]
-  rw [hst, ← execFold_exec_eq_direct q cid r.now _ _ (fun c hc => (hQ c hc).2) hsel] at hd
+  rw [hst, ← execFold_exec_eq_direct q cid r.now _ _ (fun c hc => (hQ c hc).2) hsel hcn hu] at hd
   obtain ⟨d1, d2, d3, _, d5⟩ := hd
   refine ⟨e1.trans d1.symm, e2.trans d2.symm, ?_, _, e3, d5⟩
   rw [d3, htc, exec_conn_self]
   simp [hin, hw, ha, cleared, execResult, execFold_db]
 
-/-- Full statement (prescribed behaviour: a queued SELECT does select): for EVERY queue without
-    blocking pops, EXEC ≡ back-to-back execution. -/
-theorem exec_eq_back_to_back (q : Quirks) (hq : q.selectInExecIgnored = false) (s twin : Server) (cid : Nat) (r : Req)
+/-- Full statement (prescribed behaviour: a queued SELECT does select, a queued command about the
+    connection runs under the connection's own id): for EVERY queue without blocking pops, EXEC ≡
+    back-to-back execution. -/
+theorem exec_eq_back_to_back (q : Quirks) (hq : q.selectInExecIgnored = false) (hq2 : q.connCommandsUnderConnZero = false)
+    (hq3 : q.controlArityUnchecked = false) (s twin : Server) (cid : Nat) (r : Req)
     (hin : (s.conns cid).inTx = true) (hw : r.watchOk = true) (ha : (s.conns cid).aborted = false)
     (hQ : ∀ c ∈ (s.conns cid).queue, queueable q c = true ∧ isBlockingName (nameOf c) = false)
     (hts : twin.store = s.store) (hte : twin.ext = s.ext) (htc : twin.conns cid = { db := (s.conns cid).db }) :
@@ -177,23 +181,29 @@ theorem exec_eq_back_to_back (q : Quirks) (hq : q.selectInExecIgnored = false) (
     (exec q s cid r).1.ext = (run q twin direct).ext ∧
     (exec q s cid r).1.conns cid = (run q twin direct).conns cid ∧
     ∃ slots, (exec q s cid r).2 = .exec slots ∧ trace q twin direct = slots.map fun o => some (.one o) :=
-  exec_eq_back_to_back_general q s twin cid r hin hw ha hQ (Or.inl hq) hts hte htc
+  exec_eq_back_to_back_general q s twin cid r hin hw ha hQ (Or.inl hq) (Or.inl hq2) (Or.inl hq3) hts hte htc
 
-/-- The code as it is (any setting of the switches): the same, for queues that contain no SELECT either. -/
+/-- The code as it is (any setting of the switches): the same, for queues that contain neither SELECT
+    nor a command about the connection (CLIENT) nor UNWATCH (whose arity the tree as found tests only
+    when EXEC runs it). -/
 theorem exec_eq_back_to_back_partial (q : Quirks) (s twin : Server) (cid : Nat) (r : Req)
     (hin : (s.conns cid).inTx = true) (hw : r.watchOk = true) (ha : (s.conns cid).aborted = false)
     (hQ : ∀ c ∈ (s.conns cid).queue, queueable q c = true ∧ isBlockingName (nameOf c) = false)
     (hnosel : ∀ c ∈ (s.conns cid).queue, nameOf c ≠ "SELECT")
+    (hnocl : ∀ c ∈ (s.conns cid).queue, nameOf c ∉ connectionNames)
+    (hnou : ∀ c ∈ (s.conns cid).queue, nameOf c ≠ "UNWATCH")
     (hts : twin.store = s.store) (hte : twin.ext = s.ext) (htc : twin.conns cid = { db := (s.conns cid).db }) :
     let direct := framesOf cid r.now (s.conns cid).queue
     (exec q s cid r).1.store = (run q twin direct).store ∧
     (exec q s cid r).1.ext = (run q twin direct).ext ∧
     (exec q s cid r).1.conns cid = (run q twin direct).conns cid ∧
     ∃ slots, (exec q s cid r).2 = .exec slots ∧ trace q twin direct = slots.map fun o => some (.one o) :=
-  exec_eq_back_to_back_general q s twin cid r hin hw ha hQ (Or.inr hnosel) hts hte htc
+  exec_eq_back_to_back_general q s twin cid r hin hw ha hQ (Or.inr hnosel) (Or.inr hnocl) (Or.inr hnou) hts hte htc
 
 example : (∀ c ∈ (sQueued.conns 1).queue, queueable Quirks.code c = true ∧ isBlockingName (nameOf c) = false) ∧
-    (∀ c ∈ (sQueued.conns 1).queue, nameOf c ≠ "SELECT") := by decide
+    (∀ c ∈ (sQueued.conns 1).queue, nameOf c ≠ "SELECT") ∧
+    (∀ c ∈ (sQueued.conns 1).queue, nameOf c ∉ connectionNames) ∧
+    (∀ c ∈ (sQueued.conns 1).queue, nameOf c ≠ "UNWATCH") := by decide
 
 /-- `MULTI; SELECT 1; SET k v; EXEC` as the code runs it -/
 def sSelect : Server := setConn {} 1 { inTx := true, queue := [cSELECT [49], cSET [107] [118]] }
@@ -223,7 +233,7 @@ theorem exec_eq_back_to_back_fails_select :
     dataset is the one it found.  There is no state of the schedule that lies between two queued
     commands: every other event acts on `before` or on `after`. -/
 theorem exec_is_one_transition (q : Quirks) (s0 : Server) (evs : List Event) (p cid : Nat) (r : Req)
-    (hp : evs[p]? = some (.frame cid r)) (hname : nameOf r.cmd = "EXEC") :
+    (hp : evs[p]? = some (.frame cid r)) (hname : nameOf r.cmd = "EXEC") (harity : arityOk q r.cmd) :
     let before := run q s0 (evs.take p)
     let after := run q s0 (evs.take (p + 1))
     let c := before.conns cid
@@ -237,10 +247,10 @@ theorem exec_is_one_transition (q : Quirks) (s0 : Server) (evs : List Event) (p 
   have hafter : after = (exec q before cid r).1 := by
     show run q s0 (evs.take (p + 1)) = _
     rw [run_take_succ q s0 evs p _ hp]
-    simp [stepEvent, processFrame_exec q _ cid r hname, before]
+    simp [stepEvent, processFrame_exec q _ cid r hname harity, before]
   have htr : (trace q s0 evs)[p]? = some (some (exec q before cid r).2) := by
     rw [trace_getElem q s0 evs p _ hp]
-    simp [stepEvent, processFrame_exec q _ cid r hname, before]
+    simp [stepEvent, processFrame_exec q _ cid r hname harity, before]
   refine ⟨?_, ?_, ?_⟩
   · intro hin hw ha
     obtain ⟨h1, h2, h3⟩ := exec_runs q before cid r hin hw ha
@@ -344,7 +354,7 @@ theorem queue_is_what_was_sent (q : Quirks) (s : Server) (evs : List Event) (cid
       (framesOf cid now cmds).foldl (connEvent q) { c0 with inTx := true, queue := [], aborted := false } := by
     simp only [framesOf, List.map_cons, List.foldl_cons]
     congr 1
-    simp [connEvent, connStep, he, hn, kindOf, hidle]
+    simp [connEvent, connStep, he, hn, kindOf, hidle, badArity_ok q cMULTI (Or.inl rfl)]
   rw [hm, fold_queueing q cid now cmds _ rfl hc]
   simp
 
@@ -360,7 +370,7 @@ theorem fresh_transaction_runs_exactly_its_own_commands (q : Quirks) (s : Server
     (hown : ownEvents cid evs = pre ++ framesOf cid now (cMULTI :: cmds))
     (hidle : (pre.foldl (connEvent q) (s.conns cid)).inTx = false)
     (hc : ∀ c ∈ cmds, queueable q c = true)
-    (hname : nameOf r.cmd = "EXEC") (hw : r.watchOk = true) :
+    (hname : nameOf r.cmd = "EXEC") (harity : arityOk q r.cmd) (hw : r.watchOk = true) :
     let S := run q s evs
     ∃ slots, (processFrame q S cid r).2 = .exec slots ∧ slots.length = cmds.length ∧
       (processFrame q S cid r).1.store =
@@ -368,7 +378,7 @@ theorem fresh_transaction_runs_exactly_its_own_commands (q : Quirks) (s : Server
       ((processFrame q S cid r).1.conns cid).queue = [] := by
   intro S
   obtain ⟨h1, h2, h3, _⟩ := queue_is_what_was_sent q s evs cid now pre cmds hown hidle hc
-  rw [processFrame_exec q S cid r hname]
+  rw [processFrame_exec q S cid r hname harity]
   obtain ⟨e1, _, e3⟩ := exec_runs q S cid r h1 hw h3
   refine ⟨_, e3, ?_, ?_, ?_⟩
   · unfold execResult; rw [execFold_length, h2]
@@ -432,7 +442,7 @@ example : (exec Quirks.code sRuntimeErr 1 { cmd := cEXEC }).2 = .exec [.frame KS
 /-- DISCARD inside a transaction: the dataset, the hand-over log and every other connection are
     exactly as before; the connection is out of the transaction with an empty queue; reply OK. -/
 theorem discard_drops (q : Quirks) (s : Server) (cid : Nat) (r : Req)
-    (hname : nameOf r.cmd = "DISCARD") (hin : (s.conns cid).inTx = true) :
+    (hname : nameOf r.cmd = "DISCARD") (harity : arityOk q r.cmd) (hin : (s.conns cid).inTx = true) :
     processFrame q s cid r = (setConn s cid (cleared (s.conns cid)), .one (.frame KS.ok)) ∧
     (processFrame q s cid r).1.store = s.store ∧ (processFrame q s cid r).1.ext = s.ext ∧
     ((processFrame q s cid r).1.conns cid).inTx = false ∧ ((processFrame q s cid r).1.conns cid).queue = [] := by
@@ -442,7 +452,7 @@ theorem discard_drops (q : Quirks) (s : Server) (cid : Nat) (r : Req)
     | cons a b => rfl
   have hk : kindOf (nameOf r.cmd) = .discard := (kindOf_discard _).2 hname
   have : processFrame q s cid r = (setConn s cid (cleared (s.conns cid)), .one (.frame KS.ok)) := by
-    unfold processFrame; simp [hne, hk, hin]
+    unfold processFrame; simp [hne, hk, hin, badArity_ok q r.cmd harity]
   rw [this]
   simp [cleared]
 
@@ -488,7 +498,7 @@ theorem discarded_transaction_invisible (q : Quirks) (s : Server) (evs : List Ev
     refine ⟨by simp [quietFrame, hn, kindOf], ?_⟩
     have he : cMULTI.isEmpty = false := rfl
     refine quietRun_queueing q cid now cmds _ _ ?_ hc ?_
-    · simp [connEvent, connStep, he, hn, kindOf, hidle]
+    · simp [connEvent, connStep, he, hn, kindOf, hidle, badArity_ok q cMULTI (Or.inl rfl)]
     · intro c' _
       simp [QuietRun, quietFrame, hd, kindOf]
   obtain ⟨h1, h2, _, h4⟩ := quiet_connection_is_invisible q s evs cid hq
@@ -510,7 +520,7 @@ theorem disconnected_transaction_invisible (q : Quirks) (s : Server) (evs : List
     refine ⟨by simp [quietFrame, hn, kindOf], ?_⟩
     have he : cMULTI.isEmpty = false := rfl
     refine quietRun_queueing q cid now cmds _ _ ?_ hc ?_
-    · simp [connEvent, connStep, he, hn, kindOf, hidle]
+    · simp [connEvent, connStep, he, hn, kindOf, hidle, badArity_ok q cMULTI (Or.inl rfl)]
     · intro c' _
       simp [QuietRun]
   obtain ⟨h1, h2, _, h4⟩ := quiet_connection_is_invisible q s evs cid hq
@@ -530,7 +540,8 @@ example : ownEvents 1 demoDiscard = framesOf 1 0 (cMULTI :: [cSET [107] [118]]) 
     the transaction was flagged — and after DISCARD, the connection is out of the transaction, its
     queue is empty and the flag is reset. -/
 theorem state_cleared_by_exec_and_discard (q : Quirks) (s : Server) (cid : Nat) (r : Req)
-    (hin : (s.conns cid).inTx = true) (hname : nameOf r.cmd = "EXEC" ∨ nameOf r.cmd = "DISCARD") :
+    (hin : (s.conns cid).inTx = true) (hname : nameOf r.cmd = "EXEC" ∨ nameOf r.cmd = "DISCARD")
+    (harity : arityOk q r.cmd) :
     ((processFrame q s cid r).1.conns cid).inTx = false ∧
     ((processFrame q s cid r).1.conns cid).queue = [] ∧
     ((processFrame q s cid r).1.conns cid).aborted = false := by
@@ -542,12 +553,12 @@ theorem state_cleared_by_exec_and_discard (q : Quirks) (s : Server) (cid : Nat) 
   rcases hname with h | h
   · have hk := (kindOf_exec _).2 h
     unfold connStep
-    simp only [hne, hk, hin]
+    simp only [hne, hk, hin, badArity_ok q r.cmd harity]
     repeat' split
     all_goals simp_all [cleared]
   · have hk := (kindOf_discard _).2 h
     unfold connStep
-    simp [hne, hk, hin, cleared]
+    simp [hne, hk, hin, cleared, badArity_ok q r.cmd harity]
 
 /-- For EVERY schedule and every connection: its state (database index, in-transaction flag, queue,
     flag) after the schedule is a function of ITS OWN events only — neither the dataset nor any frame
@@ -584,14 +595,19 @@ example : ∀ e ∈ [Event.frame 1 { cmd := cMULTI }, .frame 1 { cmd := cSET [10
 theorem exec_without_multi_refused (q : Quirks) (s : Server) (cid : Nat) (r : Req)
     (hname : nameOf r.cmd = "EXEC" ∨ nameOf r.cmd = "DISCARD") (hin : (s.conns cid).inTx = false) :
     processFrame q s cid r = (s, .one (.frame KS.err)) := by
+  by_cases hb : badArity q r.cmd = true
+  · unfold processFrame; simp [hb]
+  have hb' : badArity q r.cmd = false := by simpa using hb
   have hne : r.cmd.isEmpty = false := by
     cases hc : r.cmd with
     | nil => rw [hc] at hname; simp [nameOf] at hname
     | cons a b => rfl
   rcases hname with h | h
-  · rw [processFrame_exec q s cid r h, exec_refused q s cid r hin]
+  · have hk := (kindOf_exec _).2 h
+    have : processFrame q s cid r = exec q s cid r := by unfold processFrame; simp [hne, hk, hb']
+    rw [this, exec_refused q s cid r hin]
   · have hk := (kindOf_discard _).2 h
-    unfold processFrame; simp [hne, hk, hin]
+    unfold processFrame; simp [hne, hk, hin, hb']
 
 /-- MULTI inside a transaction is refused with an error and — as the code does it — NOTHING is
     touched: the connection stays in the transaction, the queue keeps every command queued so far,
@@ -604,11 +620,12 @@ theorem nested_multi_refused_keeps_queue (q : Quirks) (s : Server) (cid : Nat) (
     | nil => rw [hc] at hname; simp [nameOf] at hname
     | cons a b => rfl
   have hk := (kindOf_multi _).2 hname
-  unfold processFrame; simp [hne, hk, hin]
+  unfold processFrame
+  cases hb : badArity q r.cmd <;> simp [hne, hk, hin, hb]
 
 /-- MULTI outside a transaction opens one with an empty queue. -/
 theorem multi_opens (q : Quirks) (s : Server) (cid : Nat) (r : Req)
-    (hname : nameOf r.cmd = "MULTI") (hin : (s.conns cid).inTx = false) :
+    (hname : nameOf r.cmd = "MULTI") (harity : arityOk q r.cmd) (hin : (s.conns cid).inTx = false) :
     processFrame q s cid r =
       (setConn s cid { s.conns cid with inTx := true, queue := [], aborted := false }, .one (.frame KS.ok)) := by
   have hne : r.cmd.isEmpty = false := by
@@ -616,7 +633,34 @@ theorem multi_opens (q : Quirks) (s : Server) (cid : Nat) (r : Req)
     | nil => rw [hc] at hname; simp [nameOf] at hname
     | cons a b => rfl
   have hk := (kindOf_multi _).2 hname
-  unfold processFrame; simp [hne, hk, hin]
+  unfold processFrame; simp [hne, hk, hin, badArity_ok q r.cmd harity]
+
+/-- Prescribed: MULTI, EXEC and DISCARD with surplus arguments are refused and NOTHING changes — a
+    malformed EXEC does not execute (and does not leave) the transaction, a malformed DISCARD discards
+    nothing, a malformed MULTI opens nothing. -/
+theorem malformed_control_command_refused (q : Quirks) (hq : q.controlArityUnchecked = false) (s : Server) (cid : Nat) (r : Req)
+    (hname : nameOf r.cmd = "MULTI" ∨ nameOf r.cmd = "EXEC" ∨ nameOf r.cmd = "DISCARD") (hlen : r.cmd.length ≠ 1) :
+    processFrame q s cid r = (s, .one (.frame KS.err)) := by
+  have hne : r.cmd.isEmpty = false := by
+    cases hc : r.cmd with
+    | nil => rw [hc] at hname; simp [nameOf] at hname
+    | cons a b => rfl
+  have hb : badArity q r.cmd = true := by
+    unfold badArity
+    rcases hname with h | h | h
+    · simp [(kindOf_multi _).2 h, hlen, hq]
+    · simp [(kindOf_exec _).2 h, hlen, hq]
+    · simp [(kindOf_discard _).2 h, hlen, hq]
+  unfold processFrame; simp [hne, hb]
+
+/-- Witness for the tree as found: `EXEC junk` executes the queue (and `SET k v` takes effect). -/
+theorem malformed_control_command_refused_fails_exec :
+    nameOf (cEXEC ++ [[106]]) = "EXEC" ∧ (cEXEC ++ [[106]]).length ≠ 1 ∧
+    (processFrame Quirks.code sQueued 1 { cmd := cEXEC ++ [[106]] }).2 =
+      .exec [.frame KS.ok, .frame (.int 6), .frame (.bulk [54])] ∧
+    (processFrame Quirks.spec sQueued 1 { cmd := cEXEC ++ [[106]] }).2 = .one (.frame KS.err) ∧
+    ((processFrame Quirks.spec sQueued 1 { cmd := cEXEC ++ [[106]] }).1.conns 1).inTx = true :=
+  ⟨by decide, by decide, rfl, rfl, by decide⟩
 
 /-! ## 8. What holds in every reachable state -/
 
@@ -787,6 +831,68 @@ example : (Loop.frame Quirks.spec lBlocked 1 { cmd := cEXEC }).2.1 = .exec [.fra
 example : (Loop.frame Quirks.spec { lBlocked with srv := setConn {} 1 { inTx := true, queue := [cRPUSH [107] [[97]], cLPOP [107]] } }
       1 { cmd := cEXEC }).2 = (.exec [.frame (.int 1), .frame (.bulk [97])], []) := rfl
 
+/-! ## 10b. UNWATCH between MULTI and EXEC; commands about the connection inside EXEC -/
+
+def cUNWATCH : Cmd := [[85, 78, 87, 65, 84, 67, 72]]
+def cCLIENTID : Cmd := [[67, 76, 73, 69, 78, 84], [73, 68]]
+
+/-- `queued_has_no_effect` at work: with nothing executed immediately (prescribed), an UNWATCH sent
+    between MULTI and EXEC is only queued — it cannot disarm the WATCHes guarding the transaction
+    being built, which EXEC checks before it runs anything. -/
+theorem unwatch_inside_multi_is_queued (q : Quirks) (hq : q.immediate = []) (s : Server) (cid : Nat) (r : Req)
+    (hin : (s.conns cid).inTx = true) (hname : nameOf r.cmd = "UNWATCH") :
+    (processFrame q s cid r).2 = .one (.frame queuedFrame) ∧
+    (processFrame q s cid r).1.conns cid = { s.conns cid with queue := (s.conns cid).queue ++ [r.cmd] } := by
+  have hne : r.cmd ≠ [] := by
+    intro h; rw [h] at hname; simp [nameOf] at hname
+  have hctl : nameOf r.cmd ∉ controlNames := by rw [hname]; decide
+  obtain ⟨h1, _, _, _, h5⟩ := queued_has_no_effect q hq s cid r hin hne hctl
+  exact ⟨h1, h5⟩
+
+/-- Run by EXEC (or sent outside a transaction) a well-formed UNWATCH answers OK and touches neither
+    the dataset nor the hand-over log: in its EXEC slot it is a no-op, the watches having been checked
+    and dropped before the loop. -/
+theorem unwatch_runs_as_noop (q : Quirks) (b : Bool) (cid : Nat) (st : ExecSt) (now : Nat) (c : Cmd)
+    (hname : nameOf c = "UNWATCH") (hlen : c.length = 1) :
+    runOne q b cid st now c = (st, .frame KS.ok) := by
+  unfold runOne
+  have h1 : ("UNWATCH" = "SELECT") = False := by decide
+  have h2 : ("UNWATCH" = "BLPOP") = False := by decide
+  have h3 : ("UNWATCH" = "BRPOP") = False := by decide
+  have h4 : "UNWATCH" ∉ externalNames := by decide
+  have h5 : "UNWATCH" ∉ connectionNames := by decide
+  simp [hname, hlen, h4, h5]
+
+/-- Witness (finding C07-unwatch-runs-inside-multi): the tree as found answers OK at once and queues
+    nothing — the EXEC array is one slot short; the prescribed variant queues it and gives it a slot. -/
+theorem unwatch_inside_multi_is_queued_fails :
+    (processFrame Quirks.code sInTx 1 { cmd := cUNWATCH }).2 = .one (.frame KS.ok) ∧
+    ((processFrame Quirks.code sInTx 1 { cmd := cUNWATCH }).1.conns 1).queue = [] ∧
+    (processFrame Quirks.spec sInTx 1 { cmd := cUNWATCH }).2 = .one (.frame queuedFrame) ∧
+    (processFrame Quirks.spec (processFrame Quirks.spec sInTx 1 { cmd := cUNWATCH }).1 1 { cmd := cEXEC }).2 =
+      .exec [.frame KS.ok] :=
+  ⟨rfl, by decide, rfl, rfl⟩
+
+/-- Prescribed: what EXEC hands to the connection table (CLIENT …) is handed over under the id of the
+    connection that sent EXEC — a queued command about the connection acts on, and reports about,
+    THAT connection. -/
+theorem connection_command_in_exec_runs_for_its_connection (q : Quirks) (hq : q.connCommandsUnderConnZero = false)
+    (cid : Nat) (st : ExecSt) (now : Nat) (c : Cmd) (hname : nameOf c ∈ connectionNames) :
+    runOne q true cid st now c = ({ st with ext := st.ext ++ [(cid, c)] }, .external) ∧
+    runOne q true cid st now c = runOne q false cid st now c := by
+  have hn : nameOf c = "CLIENT" := by simpa [connectionNames] using hname
+  have h4 : "CLIENT" ∉ externalNames := by decide
+  have h5 : "CLIENT" ∈ connectionNames := by decide
+  unfold runOne
+  simp [hn, hq, h4, h5]
+
+/-- Witness (finding C07-connection-commands-run-as-connection-0): the tree as found hands a queued
+    `CLIENT ID` over under connection id 0 (it answers 0; SETNAME / GETNAME find no connection). -/
+theorem connection_command_in_exec_runs_for_its_connection_fails :
+    (runOne Quirks.code true 7 ⟨KS.emptyStore, 0, []⟩ 0 cCLIENTID).1.ext = [(0, cCLIENTID)] ∧
+    (runOne Quirks.code false 7 ⟨KS.emptyStore, 0, []⟩ 0 cCLIENTID).1.ext = [(7, cCLIENTID)] ∧
+    (runOne Quirks.spec true 7 ⟨KS.emptyStore, 0, []⟩ 0 cCLIENTID).1.ext = [(7, cCLIENTID)] := by decide
+
 /-! ## 11. The model's tables are the source's (regenerated by translator/tx_facts.py on every run)
 
 These are stated so that they hold for the tree as found AND after each of the proposed fixes
@@ -794,8 +900,11 @@ These are stated so that they hold for the tree as found AND after each of the p
 does not have: a new name handled before the queue test, a control command that gets queued, a
 thread hand-off in EXEC, a path that sets `aborted`, validation at queue time. -/
 
-/-- `should_queue_command` refuses exactly the control commands of the model -/
-theorem passThrough_table_matches_source : controlNames = Gen.txPassThrough := by decide
+/-- `should_queue_command` never queues a transaction-control command proper, and lets nothing else
+    through than those — and, in the tree as found, UNWATCH (a deviation: `immediateOfSource`) -/
+theorem passThrough_table_matches_source :
+    (∀ n ∈ controlNames, n ∈ Gen.txPassThrough) ∧
+    (∀ n ∈ Gen.txPassThrough, n ∈ controlNames ∨ n = "UNWATCH") := by decide
 
 /-- what `process_frame` handles before the queue test is the model's list (tree as found), or
     nothing at all (the queue test comes first: fix C07_3) -/
@@ -803,7 +912,7 @@ theorem preQueue_table_matches_source : Gen.preQueue = preQueueNames ∨ Gen.pre
 
 /-- and it never contains a name the model does not treat as control or hand-over -/
 theorem preQueue_is_control_or_external :
-    ∀ n ∈ Gen.preQueue, n ∈ controlNames ∨ n ∈ externalNames := by decide
+    ∀ n ∈ Gen.preQueue, n ∈ controlNames ∨ n ∈ externalNames ∨ n = "UNWATCH" := by decide
 
 /-- The variant the driver runs against the server (`Quirks.ofSource`, switches read off the source)
     lies between the prescribed behaviour and the tree as found: nothing is executed immediately
@@ -811,7 +920,9 @@ theorem preQueue_is_control_or_external :
 theorem source_variant_within_tree_as_found :
     (∀ n ∈ Quirks.ofSource.immediate, n ∈ Quirks.code.immediate) ∧
     (Quirks.ofSource.selectInExecIgnored = true → Quirks.code.selectInExecIgnored = true) ∧
-    (Quirks.ofSource.blockingInExecNoResponse = true → Quirks.code.blockingInExecNoResponse = true) := by decide
+    (Quirks.ofSource.blockingInExecNoResponse = true → Quirks.code.blockingInExecNoResponse = true) ∧
+    (Quirks.ofSource.controlArityUnchecked = true → Quirks.code.controlArityUnchecked = true) ∧
+    (Quirks.ofSource.connCommandsUnderConnZero = true → Quirks.code.connCommandsUnderConnZero = true) := by decide
 
 /-- single command thread: `Server::run` → `process_connections` → `process_connection` →
     `process_frame` → `handle_exec`'s loop, with no thread spawn / channel / async hand-off (coarse
